@@ -40,8 +40,8 @@ ASSUMPTIONS = [
     "an empty chunk result may be '' or b'' (codecs.iterencode/iterdecode skip falsy chunks)",
 ]
 MIN_EVENTS = {
-    'quick': {'oracle.fallback': 40, 'oracle.detect.final': 25000, 'oracle.detect.monotone': 25000, 'oracle.roundtrip': 500, 'oracle.chunking': 20000, 'partitions.exhaustive-inputs': 30},
-    'thorough': {'oracle.fallback': 40, 'oracle.detect.final': 25000, 'oracle.detect.monotone': 25000, 'oracle.roundtrip': 500, 'oracle.chunking': 400000, 'partitions.exhaustive-inputs': 100},
+    'quick': {'oracle.reuse': 3500, 'oracle.fallback': 40, 'oracle.detect.final': 25000, 'oracle.detect.monotone': 25000, 'oracle.roundtrip': 500, 'oracle.chunking': 20000, 'partitions.exhaustive-inputs': 30},
+    'thorough': {'oracle.reuse': 70000, 'oracle.fallback': 40, 'oracle.detect.final': 25000, 'oracle.detect.monotone': 25000, 'oracle.roundtrip': 500, 'oracle.chunking': 400000, 'partitions.exhaustive-inputs': 100},
 }
 
 CLASSES = [0x00, 0x40, 0x63, 0x68, 0x61, 0xEF, 0xBB, 0xBF, 0xFE, 0xFF, 0x41, 0x22, 0x80]
@@ -449,6 +449,73 @@ def run_chunking(ctx, t, enc, rng, apis):
 APIS = ('incdec', 'iterdecode', 'reader', 'incenc', 'iterencode', 'writer')
 
 
+def rand_cuts(n, rng):
+    if n < 2:
+        return ()
+    return tuple(sorted(rng.sample(range(1, n), min(n - 1, rng.choice([0, 1, 1, 2, 3])))))
+
+
+def check_reuse(ctx, t1, t2, given, rng, cuts_in=None, abandon_in=None):
+    """an incremental encoder/decoder that has handled one document, after reset(), handles the next one like a new object would"""
+    try:
+        exp_enc = oneshot_encode(t2, given)
+        exp_dec = oneshot_decode(exp_enc, given)
+        b1 = oneshot_encode(t1, given)
+    except Exception:
+        ctx.count('reuse.skipped')
+        return
+    c1t, c2t = cuts_in[0] if cuts_in else rand_cuts(len(t1), rng), cuts_in[1] if cuts_in else rand_cuts(len(t2), rng)
+    c1b, c2b = cuts_in[2] if cuts_in else rand_cuts(len(b1), rng), cuts_in[3] if cuts_in else rand_cuts(len(exp_enc), rng)
+    # the first document is either finished (final=True) or abandoned half-way
+    abandon = abandon_in if abandon_in is not None else rng.random() < 0.3
+    case = {'kind': 'reuse', 't1': t1, 't2': t2, 'given': given, 'cuts': [list(c1t), list(c2t), list(c1b), list(c2b)], 'abandon': abandon}
+    ctx.count('evaluations')
+    ctx.count('oracle.reuse')
+    try:
+        en = codecs.getincrementalencoder('css')(encoding=given)
+        ch1 = cut(t1, c1t)
+        for i, ch in enumerate(ch1):
+            if abandon and i == len(ch1) - 1:
+                break
+            en.encode(ch, i == len(ch1) - 1)
+        en.reset()
+        ch2 = cut(t2, c2t)
+        got = join_any([en.encode(ch, i == len(ch2) - 1) for i, ch in enumerate(ch2)], b'')
+        if got != exp_enc:
+            ctx.violation('reuse.incenc', dict(case, api='incenc'), {'got': got, 'expected': exp_enc})
+    except Exception as e:
+        ctx.violation('reuse.incenc', dict(case, api='incenc'), {'tb': core.short_tb(e)}, site=core.raise_site(e))
+    try:
+        dec = codecs.getincrementaldecoder('css')(encoding=given)
+        ch1 = cut(b1, c1b)
+        for i, ch in enumerate(ch1):
+            if abandon and i == len(ch1) - 1:
+                break
+            dec.decode(ch, i == len(ch1) - 1)
+        dec.reset()
+        ch2 = cut(exp_enc, c2b)
+        got = join_any([dec.decode(ch, i == len(ch2) - 1) for i, ch in enumerate(ch2)], '')
+        if got != exp_dec:
+            ctx.violation('reuse.incdec', dict(case, api='incdec'), {'got': got, 'expected': exp_dec})
+    except Exception as e:
+        ctx.violation('reuse.incdec', dict(case, api='incdec'), {'tb': core.short_tb(e)}, site=core.raise_site(e))
+    ctx.seen(['R', given, core.h8(t1), core.h8(t2), abandon])
+
+
+REUSE_TEXTS = ['a{b:c}', '@charset "utf-8";a{}', '@charset "iso-8859-1";é{}', '@charset "koi8-r";a{content:"Ж"}', '@charset "utf-16";x{}', '', '@charset "utf-8-sig";é', 'é{content:"Жя"}',
+               '@charset "x";a', '@charset "', '@charset "ascii";a{}', '@charset "cp1252";€{}']  # fmt: skip
+
+
+def reuse_stream(ctx, count):
+    for i in range(count):
+        if not ctx.mine(i):
+            continue
+        rng = ctx.rng('reuse', i)
+        t1, t2 = rng.choice(REUSE_TEXTS), rng.choice(REUSE_TEXTS)
+        given = rng.choice([None, None] + ENCODINGS)
+        check_reuse(ctx, t1, t2, given, rng)
+
+
 FALLBACK_DOCS = [b'a{content:"\xe4\xf6"}', b'@charset "koi8-r";a{content:"\xe4"}', b'\xef\xbb\xbfa{content:"\xc3\xa4"}', b'a{}', b'', b'@charset "iso-8859-5"; \xe4', b'/* \xb5 */a{x:y}',
                  b'\xff\xfea\x00{\x00}\x00', b'@char', b'@charset "', b'@charset  "x";\xe4']  # fmt: skip
 
@@ -508,6 +575,7 @@ def run_worker(ctx):
     c = codec(cssutils)
     quick = ctx.tier == 'quick'
     fallback_stream(ctx)
+    reuse_stream(ctx, 6000 if quick else 120000)
     # detector prefix table
     idx = 0
     for n in range(0, 5):
@@ -554,6 +622,12 @@ def run_worker(ctx):
 
 def replay(ctx, case):
     cssutils, _ = core.import_repo()
+    if case.get('kind') == 'reuse':
+        import random
+
+        codec(cssutils)
+        check_reuse(ctx, case['t1'], case['t2'], case['given'], random.Random(0), cuts_in=[tuple(x) for x in case['cuts']], abandon_in=case['abandon'])
+        return
     c = codec(cssutils)
     kind = case.get('kind')
     if kind == 'detect':
